@@ -179,10 +179,13 @@ def tildeAfterColon : List WUnit → Bool
 /-- `parse_tilde_everywhere` would create a `Tilde` unit (covers `parse_tilde_front`) -/
 def tildeTriggered (w : List WUnit) : Bool := tildeAt w || tildeAfterColon w
 
-/-- an unquoted `[` with some `]` later in the word -/
+/-- the word has an unquoted `]` (a quoted one never closes a bracket expression) -/
+def hasLitClose (w : List WUnit) : Bool := w.any fun u => u = .lit ']'
+
+/-- an unquoted `[` with an unquoted `]` later in the word -/
 def bracketTriggered : List WUnit → Bool
   | [] => false
-  | u :: rest => (u = .lit '[' && (removeQuotes rest).contains ']') || bracketTriggered rest
+  | u :: rest => (u = .lit '[' && hasLitClose rest) || bracketTriggered rest
 
 /-- the word may act as a pathname-expansion pattern -/
 def globTriggered (w : List WUnit) : Bool :=
@@ -196,5 +199,41 @@ def fieldOf (w : List WUnit) : Option (List Char) :=
     words; `none` if anything else would be triggered. -/
 def readBack (s : List Char) : Option (List (List Char)) :=
   (lex (.word []) s).bind fun ws => ws.mapM fieldOf
+
+/-! ### arguments of a declaration utility (`typeset`, `export`, `readonly`) -/
+
+/-- `determine_expansion_mode` (yash-syntax/src/parser/simple_command.rs): the units after the first
+    unquoted `=` when the units before it are a non-empty run of unquoted literals -/
+def assignValue : List WUnit → Bool → Option (List WUnit)
+  | [], _ => none
+  | u :: rest, seen =>
+    if u = .lit '=' then (if seen then some rest else none)
+    else match u with
+      | .lit _ => assignValue rest true
+      | _ => none
+
+/-- `parse_tilde(units, delimit_at_colon = false)`, scanning the name (as `parse_tilde_front` in `token`) -/
+def tildeNameFront : List WUnit → Bool
+  | [] => true
+  | .lit c :: rest => if c = '/' then true else tildeNameFront rest
+  | _ :: _ => false
+
+/-- `parse_tilde_front` creates a `Tilde` unit -/
+def tildeFront : List WUnit → Bool
+  | .lit c :: rest => c = '~' && tildeNameFront rest
+  | _ => false
+
+/-- field of an argument of a declaration utility: a `name=value` word is expanded in `Single` mode (no
+    pathname expansion; tilde expansions are parsed after the `=` and after each later colon) -/
+def fieldOfDecl (w : List WUnit) : Option (List Char) :=
+  match assignValue w false with
+  | some v =>
+    if tildeFront w then none          -- the word starts with a `Tilde` unit: not of the form `name=value`
+    else if tildeTriggered v then none else some (removeQuotes w)
+  | none => fieldOf w
+
+/-- `readBack` for the arguments that follow the name of a declaration utility -/
+def readBackDecl (s : List Char) : Option (List (List Char)) :=
+  (lex (.word []) s).bind fun ws => ws.mapM fieldOfDecl
 
 end YashModel.Quote
